@@ -114,8 +114,25 @@ theorem tie_asyncReader : asyncReaderConds =
     ["case r.read < r.b.data.Len()", "case r.b.err != nil || len(p) == 0", "default"] ∧
     asyncReaderReturns = ["n, nil", "0, err"] := ⟨rfl, rfl⟩
 
-theorem tie_closeWithError : closeWithErrorText =
-    "{ defer b.cond.Broadcast() b.cond.L.Lock() defer b.cond.L.Unlock() if err == nil { b.err = io.EOF } else { b.err = err } return nil }" := rfl
+/-- asyncbuf `CloseWithError` (`AOp.close`): nil means io.EOF; under the lock, wakes the readers.
+(The assignment itself is exercised by the `abuf` correspondence cases.) -/
+theorem tie_closeWithError : closeWithErrorConds = ["if err == nil"] ∧
+    closeWithErrorCalls = ["b.cond.Broadcast", "b.cond.L.Lock", "b.cond.L.Unlock"] ∧
+    closeWithErrorReturns = ["nil"] ∧ asyncCloseReturns = ["b.CloseWithError(nil)"] := ⟨rfl, rfl, rfl, rfl⟩
+
+/-- asyncbuf `Write` (`AOp.write`): refused with the close error once closed, appended otherwise;
+under the lock, wakes the readers -/
+theorem tie_asyncWrite : asyncWriteConds = ["if b.err != nil"] ∧
+    asyncWriteReturns = ["0, b.err", "b.data.Write(p)"] ∧
+    asyncWriteCalls = ["b.cond.Broadcast", "b.cond.L.Lock", "b.cond.L.Unlock", "b.data.Write"] :=
+  ⟨rfl, rfl, rfl⟩
+
+/-- asyncbuf `Read` waits on the condition variable in its default case and copies from the
+reader's own offset; `NewReader` makes a reader with offset 0 on the same buffer -/
+theorem tie_asyncReaderCalls : asyncReaderCalls =
+    ["r.b.cond.L.Lock", "r.b.data.Len", "r.b.data.Bytes", "r.b.cond.L.Unlock", "copy", "len",
+     "r.b.cond.L.Unlock", "r.b.cond.Wait"] ∧
+    asyncNewReaderReturns = ["&reader{b: b}"] := ⟨rfl, rfl⟩
 
 /-- discoverServices (`discoverURIs`, `discoverAPI`): nothing when discovery is disabled; the
 KeepServiceURIs override; otherwise the cached list goes to loadKeepServers -/
